@@ -11,7 +11,6 @@ import (
 	"strconv"
 	"strings"
 
-	"perun.network/go-perun/wire"
 	"verif/harness/codec/cat"
 )
 
@@ -93,7 +92,7 @@ type tierCfg struct {
 }
 
 func cfgOf(tier string) tierCfg {
-	c := tierCfg{maxDense: 2048}
+	c := tierCfg{perGroupPB: 2, maxDense: 2048}
 	if tier == "thorough" {
 		c = tierCfg{perGroupNative: 2, perGroupPB: 8, maxDense: 5200, truncAll: true, pbAllDense: true, pairMax: 420}
 	}
@@ -157,8 +156,6 @@ func lcp(a, b []byte) int {
 	}
 	return n
 }
-
-var _ = wire.Ping
 
 // buildPlan selects the seeds of the tier, decides the families of each, and deals them to the
 // shards (longest processing time first on an estimate of the work, deterministic).
